@@ -588,6 +588,17 @@ def main():
     summary['factory'] = {str(k): v for k, v in (factory or {}).items()}
     summary['objectType'] = getattr(consts, 'objecttype', [])
     summary['ohbLoopHash'] = getattr(m, 'ohb_loop_hash', '')
+    # the monitor tables (ObjectQueue, UncompressedFile)
+    import monitors
+    try:
+        tabs = monitors.tables(a.ast)
+        summary['monitors'] = tabs
+        with open(os.path.join(a.lean, 'Monitors.lean'), 'w') as f:
+            f.write(monitors.lean_text(tabs))
+    except (monitors.Unsupported, KeyError, IndexError) as e:
+        summary['untranslated']['monitors'] = str(e)
+        with open(os.path.join(a.lean, 'Monitors.lean'), 'w') as f:
+            f.write(monitors.lean_text({}))
     json.dump(summary, open(a.json, 'w'), indent=1)
     print('translated %d classes (%d with regular layout hint, %d irregular), %d untranslated' % (
         len(built), len(summary['regular']), len(summary['irregular']), len(summary['untranslated'])))
